@@ -293,6 +293,10 @@ def install(P):
     P.default_of = default_of
     P.summaries["Default::default"] = lambda ctx, c: P.default_of(ctx, c.resolve(c.selfty or ""))
 
+    @P.summary("Map::new", "Table::new", "toml::map::Map::new")
+    def _map_new(ctx, c):
+        return Opaque("toml", TVal("empty", kind="table", entries=[], ident=z3.IntVal(0)))
+
     @P.summary("Map::is_empty", "Table::is_empty", "toml::map::Map::is_empty")
     def _map_is_empty(ctx, c):
         v = deref(c.args[0])
@@ -502,6 +506,17 @@ def install(P):
             return s.out
         if hasattr(v, "serialize_model"):
             return v.serialize_model(ctx)
+        if hasattr(v, "ordered") and hasattr(v, "items") and not getattr(v, "is_set", False):
+            # HashMap / BTreeMap with string-like keys -> table
+            ents = []
+            for k, val in v.items:
+                kt = ser_value(ctx, k)
+                if kt is None or kt.kind != "str":
+                    raise Unsupported(f"serde: map key {k!r} does not serialise to a string")
+                vt = ser_value(ctx, val)
+                if vt is not None:
+                    ents.append([kt.scalar, True, vt])
+            return TVal("m", kind="table", entries=ents)
         raise Unsupported(f"serde: serialize {v!r}")
     P.ser_value = ser_value
 
